@@ -523,8 +523,27 @@ def _identity_hooks(prog: Program, col: Collector, refs: Refs, cat: Catalogue):
     base = prog.classes["funsor.terms.Funsor"]
 
     def single_return(m):
+        """the value of the only return of a straight-line method, with locals that are bound once inlined"""
         body = [s for s in m.body if not (isinstance(s, ast.Expr) and isinstance(s.value, ast.Constant))]
-        return body[0].value if len(body) == 1 and isinstance(body[0], ast.Return) else None
+        if not body or not isinstance(body[-1], ast.Return) or body[-1].value is None:
+            return None
+        env = {}
+        for st in body[:-1]:
+            if isinstance(st, ast.Assign) and len(st.targets) == 1 and isinstance(st.targets[0], ast.Name) and st.targets[0].id not in env:
+                env[st.targets[0].id] = st.value
+            elif isinstance(st, ast.Assert):
+                continue
+            else:
+                return None
+
+        class Inline(ast.NodeTransformer):
+            def visit_Name(self, node):
+                if isinstance(node.ctx, ast.Load) and node.id in env:
+                    return self.visit(env[node.id])
+                return node
+
+        import copy as _copy
+        return Inline().visit(_copy.deepcopy(body[-1].value))
 
     h = base.methods.get("__hash__")
     r = single_return(h) if h else None
